@@ -1,0 +1,1 @@
+//! Hooks for property C15 (empty unless needed).
